@@ -120,10 +120,12 @@ LocRmax  == { <<>>, <<0, 1>>, <<110900, 1>>, <<111000, 1>>, <<100000000, 1>> }
 StartLoc ==
     \/ \E ps \in SeqsUpTo(IF Big THEN PosSmall ELSE PosSet, Min2(MaxLen, IF Big THEN 3 ELSE 2)),
            b \in LocBoxes, q \in LocRmax :
-          Start(Call("loc", E, E, E, LonOf(ps), LatOf(ps), HopsOf(ps), [bbox |-> b, rmax |-> q]))
+          Start(Call("loc", E, E, E, LonOf(ps), LatOf(ps), HopsOf(ps), [bbox |-> b, rmax |-> q, shapes |-> "same"]))
     \/ \E b \in { <<0, 0, 2>>, <<0, 0, 2, 2, 2>>, <<0>> } :
-          Start(Call("loc", E, E, E, <<0, 2>>, <<0, 0>>, <<NA, 111319>>, [bbox |-> b, rmax |-> <<>>]))
-    \/ Start(Call("loc", E, E, E, <<0, 2>>, <<0>>, <<NA, NA>>, [bbox |-> <<>>, rmax |-> <<>>]))
+          Start(Call("loc", E, E, E, <<0, 2>>, <<0, 0>>, <<NA, 111319>>, [bbox |-> b, rmax |-> <<>>, shapes |-> "same"]))
+    \/ Start(Call("loc", E, E, E, <<0, 2>>, <<0>>, <<NA, NA>>, [bbox |-> <<>>, rmax |-> <<>>, shapes |-> "same"]))
+    \/ \E q \in LocRmax : Start(Call("loc", E, E, E, <<0, 2>>, <<0, 0>>, <<NA, 111319>>,
+                                       [bbox |-> <<>>, rmax |-> q, shapes |-> "differ"]))
 
 \* speeds around one degree per hour (30.9 m/s) and per day (1.29 m/s)
 SpeedThr == { <<0, 1>>, <<1, 1>>, <<2, 1>>, <<30, 1>>, <<31, 1>> }
@@ -184,7 +186,7 @@ ParamsOf(c) ==      \* the parameter pool a tightened call may draw from
                            { [st |-> s, ft |-> f, tol |-> q] : s \in FlatDur(d), f \in FlatDur(d), q \in FlatTol }
       [] c.fn = "att"   -> { [c.p EXCEPT !.st = s, !.ft = f] : s \in AttThr, f \in AttThr }
       [] c.fn = "dens"  -> { [st |-> s, ft |-> f] : s \in DensThr, f \in DensThr }
-      [] c.fn = "loc"   -> { [bbox |-> b, rmax |-> q] : b \in LocBoxes, q \in LocRmax }
+      [] c.fn = "loc"   -> { [bbox |-> b, rmax |-> q, shapes |-> c.p.shapes] : b \in LocBoxes, q \in LocRmax }
       [] c.fn = "speed" -> { [st |-> s, ft |-> f] : s \in SpeedThr, f \in SpeedThr }
       [] c.fn = "clim"  -> { [members |-> ms] : ms \in
                                IF Len(c.p.members) = 1 THEN { <<m>> : m \in ClimMembers }
